@@ -34,8 +34,11 @@ const rule = "case = (primary history of 3-170 steps over put/del/tx/batch/flush
 	"connection resets restart from the replica's expected position); oracle = after every applied entry the replica's data equals a prefix state " +
 	"S_p of the program's model with p never decreasing, every applied entry is an effect of the primary operation carrying its sequence number, " +
 	"operations are applied in order without skips or out-of-order repeats, GetLastAppliedSequence never decreases and never exceeds what was applied; " +
-	"serialize/compress/decompress/deserialize is the identity; non-trivial = the schedule delivered at least one stale (duplicate/overlapping) " +
-	"message AND at least one message ahead of the replica's position (drop/reorder) or with an inner hole; distinct by FNV-64 of the case JSON"
+	"serialize/compress/decompress/deserialize is the identity; a minority of cases (class loop) runs the REAL replica state machine (Start, ticks, error state, " +
+	"backoff, handleErrorState, reconnect) catching up with a history of 3-10 steps served in messages of generated sizes while its applier refuses generated " +
+	"entries 1-3 times (transient apply failures at the first, a middle or the last entry of a message), same oracle; non-trivial = the schedule delivered at " +
+	"least one stale (duplicate/overlapping) message AND at least one message ahead of the replica's position (drop/reorder) or with an inner hole, or (loop class) " +
+	"an apply failure hit after at least one entry of the same message had been applied; distinct by FNV-64 of the case JSON"
 
 func TestMain(m *testing.M) {
 	ev.Silence()
@@ -64,10 +67,11 @@ type Case struct {
 	Prog      drive.Program `json:"program"`
 	Prim      PrimCfg       `json:"primary"`
 	Repl      ReplCfg       `json:"replica"`
-	Variant   string        `json:"variant"` // model | engine
+	Variant   string        `json:"variant"` // model | engine | loop
 	RepEngCfg drive.Cfg     `json:"replica_engine_cfg"`
 	Msgs      []Msg         `json:"schedule"`
 	Exotic    []ExEntry     `json:"roundtrip_entries,omitempty"`
+	Loop      *LoopSpec     `json:"loop,omitempty"` // variant loop: the real replica state machine with transient apply failures
 }
 
 // Doc is the replay document.
@@ -75,6 +79,7 @@ type Doc struct {
 	Property  string     `json:"property"`
 	Case      Case       `json:"case"`
 	Violation *violation `json:"violation,omitempty"`
+	Trace     []string   `json:"trace,omitempty"` // loop class: what the replica asked for, was sent and applied
 }
 
 // ---------------------------------------------------------------- generators
@@ -90,6 +95,8 @@ func genProgram(t *rapid.T, variant string) drive.Program {
 	size := rapid.SampledFrom([]string{"s", "s", "s", "s", "s", "s", "m", "m", "l"}).Draw(t, "hsize")
 	var n int
 	switch {
+	case variant == "loop":
+		n = rapid.IntRange(3, 10).Draw(t, "nsteps")
 	case size == "s":
 		n = rapid.IntRange(1, 25).Draw(t, "nsteps")
 	case size == "m" || variant == "engine":
@@ -552,22 +559,37 @@ func runCase(c *Case, next func(st *genState, h *history) *Msg) (out outcome) {
 func TestProp(t *testing.T) {
 	rapid.Check(t, func(t *rapid.T) {
 		var c Case
-		c.Variant = rapid.SampledFrom([]string{"model", "model", "model", "model", "engine"}).Draw(t, "variant")
+		variants := make([]string, 0, 40)
+		for i := 0; i < 31; i++ {
+			variants = append(variants, "model")
+		}
+		for i := 0; i < 8; i++ {
+			variants = append(variants, "engine")
+		}
+		variants = append(variants, "loop") // 2.5 %: a loop case costs 0.3-1 s of state-machine ticks
+		c.Variant = rapid.SampledFrom(variants).Draw(t, "variant")
 		c.Prog = genProgram(t, c.Variant)
 		c.Prim = PrimCfg{Codec: rapid.SampledFrom([]int{0, 0, 1, 1, 2}).Draw(t, "pcodec"), RespectTx: rapid.Bool().Draw(t, "respecttx")}
 		c.Repl = ReplCfg{CompressionSupported: rapid.IntRange(0, 3).Draw(t, "rcomp") != 0, PreferredCodec: rapid.SampledFrom([]int{0, 1, 1, 2}).Draw(t, "rcodec")}
 		if c.Variant == "engine" {
 			c.RepEngCfg = gen.Config(t)
 		}
-		c.Exotic = genExotic(t)
-		out := runCase(&c, func(st *genState, h *history) *Msg { return nextMsg(t, st, h) })
+		var out outcome
+		var trace []string
+		if c.Variant == "loop" {
+			c.Loop = genLoop(t, &c.Prog)
+			out, trace = runLoopCase(&c)
+		} else {
+			c.Exotic = genExotic(t)
+			out = runCase(&c, func(st *genState, h *history) *Msg { return nextMsg(t, st, h) })
+		}
 		if out.abandoned != "" {
 			ev.R().Count("abandoned_cases", 1)
 			ev.R().Note("abandoned: " + out.abandoned)
 		}
 		ev.R().Case(ev.Hash(&c), out.nontriv, out.classes, func() any { return &c })
 		if out.viol != nil {
-			path := ev.R().Fail(out.viol.Signature(), out.viol.Error(), Doc{Property: "C13", Case: c, Violation: out.viol})
+			path := ev.R().Fail(out.viol.Signature(), out.viol.Error(), Doc{Property: "C13", Case: c, Violation: out.viol, Trace: trace})
 			t.Fatalf("C13 violated: %v (replay %s)", out.viol, path)
 		}
 	})
@@ -587,7 +609,18 @@ func TestReplay(t *testing.T) {
 	if err := json.Unmarshal(b, &d); err != nil {
 		t.Fatal(err)
 	}
-	out := runCase(&d.Case, nil)
+	var out outcome
+	if d.Case.Variant == "loop" {
+		// the real state machine runs on its own clock: repeat a passing execution
+		for try := 0; try < 3; try++ {
+			out, _ = runLoopCase(&d.Case)
+			if out.viol != nil || out.abandoned != "" {
+				break
+			}
+		}
+	} else {
+		out = runCase(&d.Case, nil)
+	}
 	if out.abandoned != "" {
 		t.Fatalf("replay could not run: %s", out.abandoned)
 	}
